@@ -158,7 +158,7 @@ func TestDurationMarshal(t *testing.T) {
 			}
 			return out
 		},
-		Quick: 20000, Thorough: 300000,
+		Quick: 60000, Thorough: 300000,
 	})
 }
 
@@ -296,7 +296,7 @@ func drawDurationString(t *rapid.T) strCase {
 		c.S = string(b)
 		c.Class = "soup"
 	default:
-		c.S = rapid.SampledFrom([]string{".s", "+.s", "-.s", "s", "+s", "-s", "", ".", "0", "1", "1S", "1 s", " 1s", "1s ", "1e3s", "1.5e1s", "0x1s", "١s", "1ms", "1m", "1h", "1ns", "--1s", "+-1s", "1..s", "1.2.3s", ".5s", "-.000000001s", "+.999999999s", "-0s", "+0s", "-0.0s", "0.0000000000s", "0.0000000001s", "1.0000000000s",
+		c.S = rapid.SampledFrom([]string{"s", "+s", "-s", "", ".", ".s", "+.s", "-.s", "0", "1", "1S", "1 s", " 1s", "1s ", "1e3s", "1.5e1s", "0x1s", "١s", "1ms", "1m", "1h", "1ns", "--1s", "+-1s", "1..s", "1.2.3s", ".5s", "-.000000001s", "+.999999999s", "-0s", "+0s", "-0.0s", "0.0000000000s", "0.0000000001s", "1.0000000000s",
 			"9223372036854775807s", "9223372036854775808s", "99999999999999999999999s", "315576000000.999999999s", "315576000001s", "-315576000001s", "315576000000.9999999999s", "00s", "01s", "-01.5s", "000.5s", "NaNs", "Infinitys", "1_000s", "1,5s", "1.5"}).Draw(t, "const")
 		c.Class = "constant"
 	}
@@ -325,7 +325,7 @@ func TestDurationParse(t *testing.T) {
 			v := parseDurationRef(c.S)
 			return []string{"gen:" + c.Class, v.Class + ":" + v.Why}
 		},
-		Quick: 40000, Thorough: 600000,
+		Quick: 120000, Thorough: 600000,
 	})
 }
 
